@@ -18,7 +18,7 @@ func init() {
 	run.Register(&run.Property{
 		ID:    "C15",
 		Title: "Boundary and PointOnSurface are consistent with the interior/boundary model",
-		Rule: "cases = valid geometries of every type (holes touching the shell, narrow/concave cell polygons, closed and self-touching lines, multilinestrings sharing endpoints 2/3/4 ways, collections with empty members) from D-small/D-large/D-gp, plus targeted narrow polygons whose envelope-centre row hits vertices; " +
+		Rule: "[added in rounds 9-11: nested-empties: collections nested to depth 3 built from every kind of empty; every judgement repeated on a copy with independent Z/M] cases = valid geometries of every type (holes touching the shell, narrow/concave cell polygons, closed and self-touching lines, multilinestrings sharing endpoints 2/3/4 ways, collections with empty members) from D-small/D-large/D-gp, plus targeted narrow polygons whose envelope-centre row hits vertices; " +
 			"Boundary is compared as a point set with {p: locate(g,p)=B} on every cell of the exact arrangement, PointOnSurface is located exactly. non-trivial = geometry of dimension >= 1 with a non-empty boundary or an areal geometry; distinct by WKB",
 		Assumptions:      []string{"exact locate per OGC (mod-2 rule) is the reference; collections are judged structurally (boundary = collection of member boundaries) and on PointOnSurface membership in a highest-dimension member"},
 		MinNontrivial:    500,
